@@ -59,6 +59,7 @@ def handle : List String → String
     match argc.toNat?, Hex.dec fmt, Hex.dec zone, Hex.dec arg, off.toInt?, Hex.dec abbr with
     | some n, some fmt, some zone, some arg, some off, some abbr =>
       if !(isAscii fmt && isAscii zone) then "unmodelled non-ascii"
+      else if n = 0 then "ok errs=. val=-" -- `{name}` is a key look-up, not a call
       else if n < 1 ∨ n > 3 then compileErr "func.argcount" "<ARGN>"
       else
         let fmt := if n ≥ 2 then fmt else rfc3339
@@ -72,6 +73,7 @@ def handle : List String → String
     match argc.toNat?, Hex.dec attr, Hex.dec zone, Hex.dec arg, off.toInt? with
     | some n, some attr, some zone, some arg, some off =>
       if !(isAscii attr && isAscii zone) then "unmodelled non-ascii"
+      else if n = 0 then "ok errs=. val=-" -- `{name}` is a key look-up, not a call
       else if n < 2 ∨ n > 3 then compileErr "func.argcount" "<ARGN>"
       else
         let zone := if n ≥ 3 then zone else []
@@ -84,6 +86,7 @@ def handle : List String → String
     match argc.toNat?, Hex.dec fmt, Hex.dec zone, Hex.dec str, off.toInt?, Hex.dec abbr with
     | some n, some fmt, some zone, some str, some off, some abbr =>
       if !(isAscii fmt && isAscii zone) then "unmodelled non-ascii"
+      else if n = 0 then "ok errs=. val=-" -- `{name}` is a key look-up, not a call
       else if n < 1 ∨ n > 3 then compileErr "func.argcount" "<ARGN>"
       else
         let fmt := if n ≥ 2 then fmt else []
@@ -98,6 +101,7 @@ def handle : List String → String
     match argc.toNat?, Hex.dec bucket, Hex.dec fmt, Hex.dec zone, Hex.dec str, Hex.dec abbr with
     | some n, some bucket, some fmt, some zone, some str, some abbr =>
       if !(isAscii fmt && isAscii zone && isAscii bucket) then "unmodelled non-ascii"
+      else if n = 0 then "ok errs=. val=-" -- `{name}` is a key look-up, not a call
       else if n < 2 ∨ n > 4 then compileErr "func.argcount" "<ARGN>"
       else
         let fmt := if n ≥ 3 then fmt else []
